@@ -180,6 +180,17 @@ def random_client(rnd) -> str:
 # client source -> pyfile term
 
 
+def _unpacked(t):
+    """parsing._unpack_ast_target: Name, Tuple, List, Starred"""
+    if isinstance(t, ast.Name):
+        return [t.id]
+    if isinstance(t, (ast.Tuple, ast.List)):
+        return [n for e in t.elts for n in _unpacked(e)]
+    if isinstance(t, ast.Starred):
+        return _unpacked(t.value)
+    return []
+
+
 def t_pyfile(source: str) -> str:
     root = ast.parse(source)
     imports, occs = [], []
@@ -195,6 +206,18 @@ def t_pyfile(source: str) -> str:
         elif isinstance(node, ast.Attribute):
             base = node.value.id if isinstance(node.value, ast.Name) else None
             occs.append(f"(OAttr {gopt(base, gname)} {gname(node.attr)})")
+        elif isinstance(node, ast.keyword) and node.arg is not None:
+            occs.append(f"(OKeyword {gname(node.arg)})")
+        elif isinstance(node, ast.MatchClass):
+            occs += [f"(OKeyword {gname(a)})" for a in node.kwd_attrs]
+        elif isinstance(node, ast.ClassDef) and node.bases:
+            for m in node.body:
+                if isinstance(m, (ast.FunctionDef, ast.AsyncFunctionDef, ast.ClassDef)):
+                    occs.append(f"(OSubMember {gname(m.name)})")
+                elif isinstance(m, (ast.Assign, ast.AnnAssign, ast.AugAssign)):
+                    targets = m.targets if isinstance(m, ast.Assign) else [m.target]
+                    for t in targets:
+                        occs += [f"(OSubMember {gname(n)})" for n in _unpacked(t)]
     return f"{{| f_imports := {glist(imports)}; f_occs := {glist(occs)} |}}"
 
 
@@ -349,6 +372,227 @@ def match_finding(findings, case):
 
 
 # ---------------------------------------------------------------------------------------------
+# round-4 hunt families (seed-independent).  Each entry: (tag, library source, client source)
+
+
+EXTRA_CLIENTS = [   # shapes for the used_names correspondence: keywords, subclass members, mangled attributes
+    "import lib\nlib.f(aB=1, **{'c': 2})\nprint(dict(x=1), lib.g(lib.h(yZ=3)))\n",
+    "import lib\n\n\nclass B(lib.Base, metaclass=type):\n    a, *b = 1, 2, 3\n    [c, d] = 4, 5\n    e: int = 6\n    f: int\n"
+    "    e += 1\n    class Inner:\n        innerAttr = 1\n    async def am(self):\n        return 1\n",
+    "class NoBases:\n    notCollected = 1\n    def neither(self):\n        return 1\n",
+    "import lib\nprint(lib.A._A__x, lib.a._My_Class__y_z, lib.a.__dunder__, lib.a._x__, lib.a.__a__b, lib.a._a___b, lib.a.a__b)\n",
+    "from lib import *\nfrom other import name as alias, second\nprint(free, alias)\n",
+]
+
+
+def hunt_pairs():
+    out = []
+    # H0 bindings the library gets by import and the client reaches through the library
+    for imp, name in (("from math import sqrt", "sqrt"), ("import os", "os"), ("import json as js", "js"),
+                      ("from os import path as pth, sep", "sep")):
+        lib = f"{imp}\n\n\ndef f():\n    return 1\n"
+        out.append(("H0-import-reexport", lib, f"from lib import {name}, f\nprint(bool({name}), f())\n"))
+        out.append(("H0-import-reexport", lib, f"import lib\nprint(bool(lib.{name}), lib.f())\n"))
+    # H1 a starred import in the library
+    for body in ("def f():\n    return floor(1.5)\n", "def f():\n    return 1\n"):
+        lib = "from math import *\n\n\n" + body
+        out.append(("H1-star-import", lib, "import lib\nprint(lib.sqrt(4), lib.f())\n"))
+        out.append(("H1-star-import", lib, "from lib import sqrt, f\nprint(sqrt(4), f())\n"))
+    # H2 loop variables of module / class scope that the client reads
+    loops = ["res = []\nfor keep in range(3):\n    res.append(keep * 2)\n",
+             "res = set()\nfor keep in range(3):\n    res.add(keep * 2)\n",
+             "res = {}\nfor keep in range(3):\n    res[keep] = keep * 2\n",
+             "res = []\nfor outer in range(2):\n    for keep in range(3):\n        res.append(keep * outer)\n",
+             "res = 0\nfor keep in range(3):\n    res += keep\n"]
+    for lp in loops:
+        out.append(("H2-loop-target", lp, "import lib\nprint(lib.res, lib.keep)\n"))
+        cls = "class Box:\n" + "".join("    " + l + "\n" for l in lp.splitlines())
+        out.append(("H2-loop-target", cls, "import lib\nprint(lib.Box.res, lib.Box.keep)\n"))
+    # H3 names the client writes as call keywords / match-class keyword patterns
+    out.append(("H3-keyword", "import dataclasses\n\n\n@dataclasses.dataclass\nclass P:\n    xCoord: int = 0\n",
+                "import lib\nprint(lib.P(xCoord=2))\n"))
+    out.append(("H3-keyword", "def area(sideLen=1, otherSide=2):\n    return sideLen * otherSide\n",
+                "import lib\nprint(lib.area(sideLen=3))\n"))
+    out.append(("H3-keyword", "class P:\n    XCoord = 0\n\n\ndef mk():\n    return P()\n",
+                "import lib\nmatch lib.mk():\n    case lib.P(XCoord=0):\n        print('yes')\n    case _:\n        print('no')\n"))
+    # H4 methods a client subclass overrides
+    out.append(("H4-override", "class Base:\n    def run(self):\n        return self.hookMethod()\n\n"
+                "    def hookMethod(self):\n        return 1\n",
+                "import lib\n\n\nclass B(lib.Base):\n    def hookMethod(self):\n        return 2\n\n\nprint(B().run())\n"))
+    out.append(("H4-override", "class Base:\n    defaultSize = 1\n\n    def run(self):\n        return self.defaultSize\n",
+                "from lib import Base\n\n\nclass B(Base):\n    defaultSize = 5\n\n\nprint(B().run())\n"))
+    # H5 __all__ of a library that a client star-imports
+    out.append(("H5-all", "__all__ = ['_priv']\n\n\ndef _priv():\n    return 1\n", "from lib import *\nprint(_priv())\n"))
+    out.append(("H5-all", "__all__ = ['pub']\n\n\ndef pub():\n    return 1\n\n\ndef other():\n    return 2\n",
+                "from lib import *\nprint(pub(), 'other' in dir())\n"))
+    # H6 private (name-mangled) members reached from outside
+    out.append(("H6-mangled", "class A:\n    x = 5\n\n    def __secret(self):\n        return self.x\n",
+                "import lib\nprint(lib.A()._A__secret())\n"))
+    out.append(("H6-mangled", "class A:\n    __hidden = 5\n", "import lib\nprint(lib.A._A__hidden)\n"))
+    out.append(("H6-mangled", "class _Impl:\n    def __run(self):\n        return 3\n\n\ndef mk():\n    return _Impl()\n",
+                "import lib\nprint(lib.mk()._Impl__run())\n"))
+    return out
+
+
+HUNT_SINGLE = [   # (tag, source, preserve) through format_code(preserve=...)
+    ("H0-import-reexport", "try:\n    import json as keep\nexcept ImportError:\n    keep = None\n", ["keep"]),
+    ("H2-loop-target", "res = []\nfor keep in range(3):\n    res.append(keep * 2)\n", ["keep", "res"]),
+    ("H2-loop-target", "class Box:\n    res = []\n    for keep in range(3):\n        res.append(keep * 2)\n", ["Box", "keep", "res"]),
+]
+
+
+def scope_bindings(source: str):
+    """every name bound at module scope / in class bodies by ANY statement (imports, loops, with, ...)"""
+    return k10.bound_after(source)
+
+
+def binding_oracle(mods, source, P):
+    """format_code(source, preserve=P): every name in P that the input binds at module scope (by any
+    statement) is still bound there"""
+    try:
+        out = k10.format_code(mods, source, preserve=frozenset(P))
+        top1, mem1 = scope_bindings(out)
+    except Exception:  # noqa
+        return None
+    top, mem = scope_bindings(source)
+    lost_top = sorted(n for n in top if n in P and n not in top1)
+    lost_mem = sorted(p for p in mem if p[1] in P and p[0] in P and p not in mem1)
+    if lost_top or lost_mem:
+        return {"source": source, "preserve": sorted(P), "output": out, "lost_top": lost_top,
+                "lost_members": [list(p) for p in lost_mem], "binding_kind": "any"}
+    return None
+
+
+def import_bound(source: str) -> set:
+    out = set()
+    for n in ast.walk(ast.parse(source)):
+        if isinstance(n, (ast.Import, ast.ImportFrom)):
+            out |= {(a.asname or a.name).split(".")[0] for a in n.names}
+    return out
+
+
+def loop_bound(source: str) -> set:
+    out = set()
+    for n in ast.walk(ast.parse(source)):
+        if isinstance(n, (ast.For, ast.AsyncFor)):
+            out |= {x.id for x in ast.walk(n.target) if isinstance(x, ast.Name)}
+    return out
+
+
+def _case_source(case):
+    return case.get("lib") or case.get("source") or ""
+
+
+def _case_output(case):
+    return case.get("new_lib") or case.get("output") or ""
+
+
+def _sig_import_binding_lost(case) -> bool:
+    """an import of the library disappeared (and with it a name the client / preserve set needs)"""
+    try:
+        gone = import_bound(_case_source(case)) - scope_bindings(_case_output(case))[0]
+    except SyntaxError:
+        return False
+    return bool(gone) and "*" not in import_bound(_case_source(case))
+
+
+def _sig_star_import_narrowed(case) -> bool:
+    try:
+        return "*" in import_bound(_case_source(case)) and "*" not in import_bound(_case_output(case))
+    except SyntaxError:
+        return False
+
+
+def _sig_loop_target_lost(case) -> bool:
+    try:
+        top, mem = scope_bindings(_case_output(case))
+        bound = top | {f for _, f in mem}
+        return bool(loop_bound(_case_source(case)) - bound)
+    except SyntaxError:
+        return False
+
+
+def _method_kinds(source: str):
+    out = {}
+    for c in ast.walk(ast.parse(source)):
+        if isinstance(c, ast.ClassDef):
+            for m in c.body:
+                if isinstance(m, (ast.FunctionDef, ast.AsyncFunctionDef)):
+                    out[(c.name, m.name)] = tuple(sorted(d.id for d in m.decorator_list if isinstance(d, ast.Name)
+                                                         and d.id in ("staticmethod", "classmethod")))
+    return out
+
+
+def _sig_method_kind_changed(case) -> bool:
+    """no definition is lost, but a method became a staticmethod / classmethod (its name is kept)"""
+    try:
+        a, b = _method_kinds(_case_source(case)), _method_kinds(_case_output(case))
+    except SyntaxError:
+        return False
+    return not case.get("lost_top") and not case.get("lost_members") and any(b.get(k, v) != v for k, v in a.items())
+
+
+HUNT_SIGS = {"method_kind_changed", "import_binding_lost", "star_import_narrowed", "loop_target_lost"}
+SIGS.update({"method_kind_changed": _sig_method_kind_changed, "import_binding_lost": _sig_import_binding_lost, "star_import_narrowed": _sig_star_import_narrowed,
+             "loop_target_lost": _sig_loop_target_lost})
+
+
+def cross_site(mods, tree, case):
+    """bisect a cross-file failure: the first pipeline stage after which the client no longer behaves as before"""
+    lib, client = case["lib"], case["client"]
+    base = run_client(lib, client)
+    return k10.bisect_pipeline(
+        mods, lambda: run_format_files(mods, tree, lib, client, case.get("passes", 1),
+                                       preserved=tuple(case.get("preserved", ("client.py",)))),
+        lambda src: run_client(src, client) != base)
+
+
+def single_site(mods, case):
+    src, P = case["source"], set(case["preserve"])
+    top, mem = scope_bindings(src)
+
+    def bad(s):
+        t1, m1 = scope_bindings(s)
+        return any(n in P and n not in t1 for n in top) or any(p[1] in P and p not in m1 for p in mem)
+    return k10.bisect_pipeline(mods, lambda: mods["main"].format_code(src, preserve=frozenset(P)), bad)
+
+
+def namespace_collision_case(mods, tree: Path):
+    """hunt C08-7: <d>/a/b.py is formatted, <d>/a.b.py is the preserved client (dots in file names)"""
+    d = tree / "nsdots"
+    (d / "a").mkdir(parents=True, exist_ok=True)
+    lib, client = d / "a" / "b.py", d / "a.b.py"
+    lib_src = "def helper():\n    return 1\n\n\ndef unusedThing():\n    return 2\n"
+    lib.write_text(lib_src)
+    client.write_text("from b import helper\nprint(helper())\n")
+    rec = []
+    mods["core"].parse.cache_clear()
+    with common.quiet(), in_process_pool(mods, rec):
+        mods["main"].format_files([lib], preserved_filenames=[client], n_cores=1, max_passes=1)
+    new_lib = lib.read_text()
+    got = sorted(rec[0][1]) if rec else None
+    want = sorted(mods["main"]._used_names_in_file(client))
+    if "helper" not in k10.bound_after(new_lib)[0] or got != want:
+        return {"path": "format_files([<d>/a/b.py], preserved_filenames=[<d>/a.b.py])", "lib": lib_src,
+                "client": client.read_text(), "new_lib": new_lib, "preserve_handed_to_format_file": got,
+                "names_used_by_the_preserved_file": want, "lost_top": ["helper"] if "def helper" not in new_lib else [],
+                "lost_members": [], "site": "main._namespace_name"}
+    return None
+
+
+def match_site_finding(findings, site, case):
+    """a hunt finding suppresses a failure only when the bisected site is the finding's site AND its predicate holds"""
+    for f in findings:
+        if f.kind != "finding" or f.fields.get("sig") not in HUNT_SIGS:
+            continue
+        sites = set(f.fields.get("site", "").split(","))
+        pred = SIGS.get(f.fields.get("sig", ""))
+        if site in sites and pred and pred(case):
+            return f.id
+    return None
+
+
+# ---------------------------------------------------------------------------------------------
 
 
 def check(run: common.Run):
@@ -367,7 +611,8 @@ def check(run: common.Run):
     pairs = list(all_pairs())
     n_exh = len(pairs)
     nrand = 60 if quick else 1500
-    clients = [c for _, _, c in pairs] + [random_client(rnd) for _ in range(nrand)]
+    clients = [c for _, _, c in pairs] + [c for _, _, c in hunt_pairs()] + EXTRA_CLIENTS + \
+              [random_client(rnd) for _ in range(nrand)]
 
     # ---- (a) _used_names_in_file vs used_names
     ucases = []
@@ -530,6 +775,39 @@ def check(run: common.Run):
     n_sweep += 1
     if fail:
         failures.append(fail)
+    # round-4 hunt families: bindings by import / starred import / loops, keywords, overrides, __all__,
+    # name mangling, dotted file names.  Failures are bisected (first stage after which the client breaks)
+    hunt_examples = {}
+    for tag, lib_src, c in hunt_pairs():
+        for passes in ((1,) if quick else (1, 5)):
+            n_sweep += 1
+            hist[f"sweep:hunt:{tag}"] += 1
+            fail = cross_oracle(mods, tree, lib_src, c, passes)
+            if fail:
+                fail["family"] = tag
+                fail["site"] = cross_site(mods, tree, fail)
+                fid = match_site_finding(findings, fail["site"], fail)
+                if fid:
+                    suppressed[fid] += 1
+                    hunt_examples.setdefault(fid, fail)
+                else:
+                    failures.append(fail)
+    for tag, src, P in HUNT_SINGLE:
+        n_sweep += 1
+        fail = binding_oracle(mods, src, set(P))
+        if fail:
+            fail["family"] = tag
+            fail["site"] = single_site(mods, fail)
+            fid = match_site_finding(findings, fail["site"], fail)
+            if fid:
+                suppressed[fid] += 1
+                hunt_examples.setdefault(fid, fail)
+            else:
+                failures.append(fail)
+    n_sweep += 1
+    fail = namespace_collision_case(mods, tree)
+    if fail:
+        failures.append(fail)
     # explicit preserve sets through format_code (the within-a-file clause), seed-independent
     for src in k10.single_statements()[:: (3 if quick else 1)]:
         for P in k10.preserve_sets(src, None, single=True, quick=True)[:: (2 if quick else 1)]:
@@ -570,6 +848,15 @@ def check(run: common.Run):
     for fnd in findings:
         if fnd.kind != "finding":
             continue
+        if fnd.fields.get("sig") in HUNT_SIGS:      # replayed by the hunt families of the sweep (site + predicate)
+            if suppressed.get(fnd.id):
+                ex = hunt_examples.get(fnd.id, {})
+                run.known_finding(fnd.id, f"{fnd.text} [{suppressed[fnd.id]} sweep cases reproduce at this site with "
+                                          f"this signature, e.g. {ex.get('lib', ex.get('source', ''))!r} -> "
+                                          f"{ex.get('new_lib', ex.get('output', ''))!r}]")
+            else:
+                common.log(f"note: known finding {fnd.id} no longer reproduces")
+            continue
         hits = []
         for src, P in F08_3_WITNESSES:
             fail = preserve_oracle(mods, src, set(P))
@@ -583,7 +870,13 @@ def check(run: common.Run):
             common.log(f"note: known finding {fnd.id} no longer reproduces")
 
     # ---- verdicts
-    for fail in failures[:5]:
+    shown, keys = [], set()
+    for fail in failures:           # one report per (family, bisected site), at most 12
+        key = (fail.get("family"), fail.get("site"), fail.get("path"))
+        if key not in keys or key == (None, None, None) and len(shown) < 5:
+            keys.add(key)
+            shown.append(fail)
+    for fail in shown[:12]:
         run.violation({"kind": "property-oracle", **fail,
                        "explanation": "a definition that is in the preserve set / referenced by the preserved client "
                                       "was deleted or renamed, or the client's behaviour changed"}, True)
